@@ -89,12 +89,10 @@ pub fn parse_structured_yaml(text: &str) -> Result<(Vec<FileRep>, Value), String
 
 /// strip "<rules file>/" prefixes the summary table and some reporters add
 pub fn bare(name: &str) -> String {
-    match name.rfind(".guard/") {
-        Some(i) => name[i + 7..].to_string(),
-        None => match name.rfind(".ruleset/") {
-            Some(i) => name[i + 9..].to_string(),
-            None => name.to_string(),
-        },
+    // rule names are identifiers; anything up to the last '/' is a rules-file prefix
+    match name.rfind('/') {
+        Some(i) => name[i + 1..].to_string(),
+        None => name.to_string(),
     }
 }
 
@@ -305,7 +303,9 @@ pub fn parse_record_stream(text: &str) -> Vec<Value> {
             if line.starts_with('}') {
                 b.push('}');
                 if let Ok(v) = serde_json::from_str::<Value>(b) {
-                    out.push(v);
+                    if v.get("container").is_some() {
+                        out.push(v);
+                    }
                 }
                 buf = if line.len() > 1 && &line[1..] == "{" { Some("{".into()) } else { None };
             } else {
@@ -352,7 +352,11 @@ pub fn parse_junit(text: &str) -> Result<Vec<JunitCase>, String> {
                         if let Some(c) = cur.take() {
                             out.push(c);
                         }
-                        cur = Some(JunitCase { suite: suite.clone(), name: attr(&e, "name").unwrap_or_default(), mark: "pass".into(), failure_rules: vec![] });
+                        let mark = match attr(&e, "status").as_deref() {
+                            Some("skip") => "skip",
+                            _ => "pass",
+                        };
+                        cur = Some(JunitCase { suite: suite.clone(), name: attr(&e, "name").unwrap_or_default(), mark: mark.into(), failure_rules: vec![] });
                     }
                     "failure" => {
                         if let Some(c) = cur.as_mut() {
